@@ -309,6 +309,17 @@ def check_pow2_m1(acc, n, basis, big_endian, htag, c, ops):
 
 def check_small_blocks(acc):
     from cirbo.synthesis.generation.arithmetics import add_sum2, add_sum3, add_sum_n_bits_easy
+    import cirbo.synthesis.generation.arithmetics as A
+
+    for nm, mk in (
+        ('generate_sum_n_bits', lambda: A.generate_sum_n_bits(5)),
+        ('generate_sum_n_bits(aig)', lambda: A.generate_sum_n_bits(4, basis='aig', big_endian=True)),
+        ('generate_sum_weighted_bits_efficient', lambda: A.generate_sum_weighted_bits_efficient([0, 1, 1, 3])),
+        ('generate_sum_weighted_bits_naive', lambda: A.generate_sum_weighted_bits_naive([2, 0, 0, 1], basis='AIG')),
+    ):
+        acc.states += 1
+        acc.traces += 1
+        arith.fresh_generator_check(acc, nm, mk)
 
     for k, fn in ((2, add_sum2), (3, add_sum3)):
         for htag, c, ops in hosts_for(k, ('H0', 'H1', 'H2')):
